@@ -184,14 +184,17 @@ inline void make_grid(TasmanianSparseGrid &g, GridSpec &sp, int cap) {
 // Value model: smooth bounded deterministic function of the coordinates (and of a salt that Reload bumps)
 struct ValueModel {
     double w[4] = {0.7, -0.4, 0.3, 0.9}; double phase = 0.3; double q = 1.0;
+    double bump = 0.0, centre[4] = {0, 0, 0, 0}, sharp = 30.0;   // optional local feature: drives adaptive refinement into one corner (deep, irregular hierarchies)
     void decode(Src &s) { static const std::vector<double> pal = {0.7, -0.4, 0.3, 0.9, 1.3, -1.1, 0.15, 2.0};
-        for (auto &x : w) x = s.of(pal); phase = 0.1 * s.pick(16); q = 0.5 + 0.25 * s.pick(6); }
+        for (auto &x : w) x = s.of(pal); phase = 0.1 * s.pick(16); q = 0.5 + 0.25 * s.pick(6);
+        if (s.chance(1, 2)) { static const std::vector<double> cp = {0.3, -0.6, 0.0, 0.55, -0.25, 0.8, -0.9}; bump = 1.5 + 0.5 * s.pick(4); for (auto &c : centre) c = s.of(cp); sharp = 10.0 * (1 + s.pick(6)); } }
     double operator()(const double *x, int dims, int k, int salt) const {
-        double a = phase + 0.37 * salt + 0.9 * k, r2 = 0;
-        for (int j = 0; j < dims; j++) { double t = x[j] / (1.0 + 0.1 * std::fabs(x[j])); a += w[j] * t; r2 += t * t; }
-        return (1.0 + k) + 0.75 * std::sin(a) + 0.25 * std::cos(q * r2 / (1.0 + 0.2 * r2) + salt);
+        double a = phase + 0.37 * salt + 0.9 * k, r2 = 0, b2 = 0;
+        for (int j = 0; j < dims; j++) { double t = x[j] / (1.0 + 0.1 * std::fabs(x[j])); a += w[j] * t; r2 += t * t; b2 += (t - centre[j]) * (t - centre[j]); }
+        return (1.0 + k) + 0.75 * std::sin(a) + 0.25 * std::cos(q * r2 / (1.0 + 0.2 * r2) + salt) + (bump != 0.0 ? bump * std::exp(-sharp * b2) : 0.0);
     }
-    std::string text() const { std::ostringstream o; o << "vm w=" << w[0] << "," << w[1] << "," << w[2] << "," << w[3] << " ph=" << phase << " q=" << q; return o.str(); }
+    std::string text() const { std::ostringstream o; o << "vm w=" << w[0] << "," << w[1] << "," << w[2] << "," << w[3] << " ph=" << phase << " q=" << q;
+        if (bump != 0.0) o << " bump=" << bump << "@" << centre[0] << "," << centre[1] << "," << centre[2] << "," << centre[3] << " sharp=" << sharp; return o.str(); }
 };
 
 using Coord = std::vector<double>;
@@ -282,6 +285,12 @@ struct GridState {
     bool canon11() const { return spec.family != F_FOURIER && !(spec.family == F_GLOBAL && rule_unbounded(spec.rule)); }
     bool aniso_capable() const { return spec.family == F_SEQ || spec.family == F_FOURIER || (spec.family == F_GLOBAL && spec.nested()); }
     bool surplus_capable() const { return spec.family == F_SEQ || spec.family == F_LOCALP || spec.family == F_WAVE || (spec.family == F_GLOBAL && !spec.custom && OneDimensionalMeta::isSequence(spec.rule)); }
+    // points of a deeper grid of the same spec that respect the limits currently in force: pool for arbitrary-order deliveries
+    void rebuild_target() {
+        target.clear(); target_done.clear(); GridSpec r = spec; r.limits = g.getLevelLimits();
+        try { TasmanianSparseGrid ref; make_raw(ref, r, spec.depth + 1, 0); if (ref.getNumPoints() > 2 * cap) make_raw(ref, r, spec.depth, 0);
+              if (ref.getNumPoints() <= 2 * cap) { apply_transforms(ref, spec); target = ref.getPoints(); } } catch (std::runtime_error &) {}
+    }
     void note(const std::string &t) { trace.push_back(t); n_exec++; if (ctx) ctx->log(t); }
     // after a refinement/update produced too many needed points the history drops them (a legal ClearRefinement)
     void enforce_cap() { if (g.getNumNeeded() + g.getNumLoaded() > 4 * cap) { g.clearRefinement(); note("ClearRef(cap)"); } }
@@ -319,6 +328,15 @@ inline bool apply_op(GridState &st, const Op &op) {
                 size_t n = (size_t)g.getNumLoaded() * (size_t)(out == -1 ? outs : 1); scale.resize(n);
                 for (size_t i = 0; i < n; i++) scale[i] = 0.25 * (1 + (int)((i * 7 + op.variant) % 8));
             }
+            double tol = op.tol;
+            if (op.variant & 1) {   // selective tolerance: a quantile of the actual normalised coefficients, so that only part of the grid is refined
+                int n = g.getNumLoaded(); const double *cf = g.getHierarchicalCoefficients(), *vl = g.getLoadedValues(); std::vector<double> cr((size_t)n, 0.0), nm((size_t)outs, 0.0);
+                for (int i = 0; i < n; i++) for (int k = 0; k < outs; k++) nm[(size_t)k] = std::max(nm[(size_t)k], std::fabs(vl[(size_t)i * (size_t)outs + (size_t)k]));
+                for (int i = 0; i < n; i++) for (int k = 0; k < outs; k++) if ((out == -1 || out == k) && nm[(size_t)k] > 0) cr[(size_t)i] = std::max(cr[(size_t)i], std::fabs(cf[(size_t)i * (size_t)outs + (size_t)k]) / nm[(size_t)k]);
+                std::sort(cr.begin(), cr.end()); static const double qs[] = {0.5, 0.7, 0.85, 0.95}; double v = cr[(size_t)((double)(n - 1) * qs[(op.variant >> 1) & 3])];
+                if (std::isfinite(v) && v > 0) tol = v;
+            }
+            Op &mop = const_cast<Op &>(op); mop.tol = tol;
             if (op.raw_overload || !scale.empty()) g.setSurplusRefinement(op.tol, op.crit, out, op.limits.empty() ? nullptr : op.limits.data(), scale.empty() ? nullptr : scale.data());
             else g.setSurplusRefinement(op.tol, op.crit, out, op.limits);
             t << "RefSurp(tol=" << op.tol << "," << refine_name(op.crit) << ",out=" << out << lim_text(op.limits) << (scale.empty() ? "" : " scale") << ")";
@@ -357,9 +375,7 @@ inline bool apply_op(GridState &st, const Op &op) {
         g.setHierarchicalCoefficients(c); st.dict.clear(); st.dict_valid = false;
         t << "SetCoeff(v=" << op.variant << ")"; break; }
     case OP_BEGIN_CONSTR: { if (st.constructing || outs == 0 || !st.spec.nested() || st.conformal_set()) return false; /* conformal + construction: outside every listed property, see DESIGN */ g.beginConstruction(); st.constructing = true; st.candidates.clear();
-        { st.target.clear(); st.target_done.clear(); GridSpec r = st.spec; r.limits = g.getLevelLimits();
-          try { TasmanianSparseGrid ref; make_raw(ref, r, st.spec.depth + 1, 0); if (ref.getNumPoints() > 2 * st.cap) make_raw(ref, r, st.spec.depth, 0);
-                if (ref.getNumPoints() <= 2 * st.cap) { apply_transforms(ref, st.spec); st.target = ref.getPoints(); } } catch (std::runtime_error &) {} }
+        st.rebuild_target();
         t << "BeginConstr"; break; }
     case OP_CANDIDATES: {
         if (!st.constructing) return false;
@@ -375,6 +391,7 @@ inline bool apply_op(GridState &st, const Op &op) {
             t << "Candidates(" << type_name(op.type) << ",out=" << out << lim_text(op.limits) << ")";
         }
         if ((int)(st.candidates.size() / (size_t)dims) > 4 * st.cap) st.candidates.resize((size_t)(4 * st.cap) * (size_t)dims);
+        if (!op.limits.empty()) st.rebuild_target();   // deliveries must respect the limits now in force
         t << "->" << st.candidates.size() / (size_t)dims; break; }
     case OP_LOAD_CONSTR: {
         if (!st.constructing) return false;
